@@ -414,6 +414,23 @@ class Engine:
         if eff is not None:
             it.run.event(eff, lineno=getattr(n, 'lineno', None), args=a, heap=it.heap.snapshot(), index=len(it.run.events))
             return self.effect_result(it, name, a, kw, n)
+        if name == 'objdict.copy':
+            # obj.__dict__.copy(): a dict of the instance attributes the object's class (and its bases) ever assigns; all present
+            ov = a[0].payload
+            cl = it.classes_of(ov)
+            if len(cl) != 1 or cl[0] not in self.class_fields:
+                it.unsupported(n, '__dict__.copy() of an object whose class is not fixed')
+            r = it.run.alloc('dict')
+            m = MapT.empty()
+            for f in sorted(self.class_fields[cl[0]]):
+                m = it.map_set_simpl(m, sym.mk_str(f), it.heap.get(f, sym.r_of(ov.t)))
+            it.heap.put_m(r, m)
+            return SV(sym.mk_ref(r), hint=frozenset(['dict']))
+        if name == 'objdict.update':
+            ov = a[0].payload
+            for kt, vt in it.concrete_items(a[1], n, fr):
+                it.heap.put(sym.py_of_val(kt), sym.r_of(ov.t), vt)
+            return NONE
         if name in OPAQUE_STR:
             # text manipulation whose value is never used for a decision in the functions under contract: an opaque string
             return SV(Val.str(it.run.fresh(name.replace('.', '_'), z3.StringSort())))
